@@ -91,7 +91,7 @@ class ModbusBinaryFramer(ModbusFramer):
         it or determined that it contains an error. It also has to reset the
         current frame header handle
         """
-        self._buffer = self._buffer[self._header['len'] + 2:]
+        self._buffer = self._buffer[self._header['len'] + 1:]
         self._header = {'crc':0x0000, 'len':0, 'uid':0x00}
 
     def isFrameReady(self):
@@ -162,7 +162,12 @@ class ModbusBinaryFramer(ModbusFramer):
             unit = [unit]
         single = kwargs.get('single', False)
         while self.isFrameReady():
-            if self.checkFrame():
+            try:
+                valid = self.checkFrame()
+            except struct.error:
+                # too short to hold a unit id and a checksum: a damaged frame
+                valid = False
+            if valid:
                 if self._validate_unit_id(unit, single):
                     result = self.decoder.decode(self.getFrame())
                     if result is None:
@@ -173,13 +178,19 @@ class ModbusBinaryFramer(ModbusFramer):
                 else:
                     _logger.debug("Not a valid unit id - {}, "
                                   "ignoring!!".format(self._header['uid']))
+                    # skip this frame only, keep what follows it
+                    self.advanceFrame()
+            else:
+                start = self._buffer.find(self._start)
+                if start == -1:
+                    # nothing but noise so far
                     self.resetFrame()
                     break
-
-            else:
-                _logger.debug("Frame check failed, ignoring!!")
-                self.resetFrame()
-                break
+                if self._buffer.find(self._end, start) == -1:
+                    # the frame is not complete yet: wait for the rest
+                    break
+                # a complete frame that failed its check: drop this frame only
+                self.advanceFrame()
 
     def buildPacket(self, message):
         """ Creates a ready to send modbus packet
